@@ -233,6 +233,15 @@ func runLemmas(verbose bool, only string, timeout int) int {
 		cans = append(cans, &Obligation{Name: o.Name + "/consistent", Func: o.Func, Kind: "canary", Assumes: o.Assumes, Goal: False, Canary: true,
 			Reveal: o.Reveal, Lemmas: o.Lemmas})
 	}
+	if only == "" {
+		// the whole library at once: all axioms and all lemma statements together must not prove false
+		var all []string
+		for _, n := range lib.Order {
+			all = append(all, n)
+		}
+		g := &Obligation{Name: "lemma/*/library-consistent", Func: "spec", Kind: "canary", Goal: False, Canary: true, Reveal: map[string]bool{}, Lemmas: all}
+		cans = append(cans, g)
+	}
 	lib.SolveAll(append(append([]*Obligation{}, obls...), cans...), timeout, 5, false)
 	bad := 0
 	for _, c := range cans {
